@@ -5,7 +5,7 @@
    ParallelFetch ranges in flight, Run returns only when the model is terminal).
    Entries are tokens (Z): the harness keeps the bijection token <-> bytes. *)
 From Coq Require Import ZArith Bool List.
-From V Require Import Base.GoInt Base.CaseLib gen.Fetcher Scanner.FetchLib Scanner.FetchModel.
+From V Require Import Base.GoInt Base.CaseLib gen.Fetcher Scanner.FetchLib Scanner.FetchModel Scanner.ConsumeModel.
 Import ListNotations.
 Open Scope Z_scope.
 
@@ -23,7 +23,12 @@ Inductive case :=
          (log : list Z) (evs : list ev)
 | CScan (batch : Z) (workers : nat) (start end_ : Z) (cont : bool)
         (mk : mkind) (precert_only : bool) (classes : list (eclass * bool))
-        (log : list Z) (evs : list ev).
+        (log : list Z) (evs : list ev)
+(* the consumers of the Fetcher (Scanner/ConsumeModel.v): one call of the migrillian Controller's
+   Run (restarts = RunWhenMaster) seen pass by pass, ret = Some true: nil | Some false: error |
+   None: panic / hang; one life of an integration.CopyChainGenerator *)
+| CMigrate (start end_ : Z) (cont restarts : bool) (dest0 : Z) (passes : list pass) (ret : option bool)
+| CCopy (start total : Z) (log : list centry) (certs precerts : list Z) (settled : bool).
 
 Definition zeqb_list := list_eqb Z.eqb.
 
@@ -222,11 +227,25 @@ Definition check (c : case) : bool :=
       accepted [] (mkcfg batch workers start cont) end_ false MCert false log evs
   | CScan batch workers start end_ cont mk po classes log evs =>
       accepted classes (mkcfg batch workers start cont) end_ true mk po log evs
+  | CMigrate start end_ cont restarts dest0 passes ret =>
+      mig_accepts {| m_start := start; m_end := end_; m_cont := cont; m_restarts := restarts |} dest0 passes ret
+  | CCopy start total log certs precerts settled =>
+      copy_accepts start total log certs precerts settled
   end.
 
 (* what the model says: (index of the first event the model does not allow, if any;
    generator cursor and end; worker states; indices delivered; callbacks found so far) *)
 Definition explain (c : case) :=
+  match c with
+  | CMigrate start end_ cont restarts dest0 passes ret =>
+      (* (passes the model accepts; (Run's position, end of the claimed range, the model returns nil); -; claimed range; -) *)
+      let '(k, (b, cl), r) := mig_explain {| m_start := start; m_end := end_; m_cont := cont; m_restarts := restarts |}
+                                          (mig_init dest0) passes 0 in
+      (Some k, (b, snd cl, match r with Some true => true | _ => false end), [], [fst cl; snd cl], [])
+  | CCopy start total log certs precerts settled =>
+      (* expected certificate chains; expected precertificate chains (tokens) *)
+      (None, (start, total, settled), [], copy_expected KCertE start log, map (fun t => (KPrecert, t)) (copy_expected KPreE start log))
+  | _ =>
   let '(rs, bad) :=
     match c with
     | CFetch batch workers start end_ cont log evs =>
@@ -235,10 +254,12 @@ Definition explain (c : case) :=
     | CScan batch workers start end_ cont mk po classes log evs =>
         replay classes (mkcfg batch workers start cont) end_ true mk po log
                [start_state (mkcfg batch workers start cont)] evs 0
+    | _ => ([], None)
     end in
   match rs with
   | [] => (bad, (0, 0, false), [], [], [])
   | r :: _ =>
     (bad, (g_cur (fs (m r)), g_end (fs (m r)), g_alive (fs (m r))), ws (fs (m r)),
      map fst (delivered (fs (m r))), map (fun x => (fst (fst x), snd (fst x))) (found (m r)))
+  end
   end.
